@@ -182,6 +182,11 @@ class StmtGen:
         if r < 0.27:
             return J.Text(rnd.choice(["x", ".", "T"]))
         if r < 0.42:
+            if rnd.random() < 0.2:
+                # several names at once (inside loops and blocks they are locals like any other, never exported;
+                # tp / tq are names nothing else assigns)
+                a, b = rnd.sample(self.names, 2) if not (inloop and rnd.random() < 0.6) else ("tp", "tq")
+                return J.Set(J.TTuple([J.TName(a), J.TName(b)]), J.List([self.expr(1, inloop), self.expr(1, inloop)], tup=True))
             return J.Set(self.name(), self.expr(2, inloop))
         if r < 0.54:
             ntest = rnd.choice([1, 1, 2])
@@ -442,7 +447,9 @@ def inherit_case(rnd, cid, auto=None, rich=False):
             if is_root and rnd.random() < 0.25:
                 scoped = rnd.random() < 0.6
                 blk = dict(blk, scoped=scoped)
-                body.append(J.For(J.TName("i"), J.List([C(1), C(2)]), [blk, J.Text(",")]))
+                loop = J.For(J.TName("i"), J.List([C(1), C(2)]), [blk, J.Text(",")])
+                # inside a buffered frame (filter block) the block is called through the buffer, not `yield from`
+                body.append(J.FilterBlock("string", [loop]) if rich and rnd.random() < 0.4 else loop)
             elif rich and rnd.random() < 0.45:
                 # a block nested in a statement: inside an autoescape block it takes that block's mode; at the
                 # top level of a child template it is a definition only, whatever it is nested in
